@@ -433,6 +433,14 @@ def c15_case(seed, model, rep):
             threading.Timer(delay, tail.kill).start()
             variants.append(("listener killed %.2fs into the run" % delay, run_once(repo)))
             tail.wait()
+        # listener frozen (SIGSTOP) when the run connects: the kernel completes the connection, the
+        # run waits for the listener's filter line; then the listener is killed inside that handshake
+        tail = start_tail(repo, flt2)
+        os.kill(tail.pid, signal.SIGSTOP)
+        import threading
+        threading.Timer(rng.pick([0.15, 0.3, 0.5]), tail.kill).start()
+        variants.append(("listener frozen, then killed while the run waits for its filter line", run_once(repo)))
+        tail.wait()
         rep.evaluations += 1
         rep.count("base_failed" if base[0] == 1 else "base_ok")
         for name, v in variants:
